@@ -4,13 +4,14 @@
  "file": "expr.c", "function": "stringconcat", "also_functions": ["decodechar", "encodechar8", "encodechar16", "encodechar32", "utf8dec", "utf8enc", "utf16enc"],
  "properties": {"C14": "contract", "C19": "safety"},
  "mode": "harness",
- "link_repo": ["type.c", "utf.c"], "stubs": ["base.c", "array_model.c"],
+ "link_repo": ["type.c", "utf.c"], 
  "kind": "bounded", "bound": "one or two adjacent string literal tokens, any prefixes (none, u8, u, U, L), each body empty or ONE s-char of at most 7 octets (simple escape, octal escape, \\x + up to 5 hexadecimal digits, or one well-formed UTF-8 character)",
- "unwind": 12,
+ "unwind": 13, "unwindset": ["stringconcat.0:3", "stringconcat.1:2", "stringconcat.2:3", "decodechar.0:6", "decodechar.1:4", "utf8dec.0:4"],
+ "variants": {"one": ["-DV_NTOK=1"], "two": ["-DV_NTOK=2"]},
  "timeout": 300,
  "expects": ["assertion_verif", "assertion_repo"],
  "assumes": ["next() is a stub that delivers the harness's token queue (tok.kind, tok.lit) and then TEOF; token text is what scan.c:stringlit() produces (prefix, quote, body, quote, NUL; escapes lexically valid)",
-             "arrayadd: stubs/array_model.c (text of util.c with 'realloc does not fail'); xreallocarray: stubs/base.c (exact-size realloc, so every write past len * width is a bounds obligation)",
+             "arrayadd: fixed-capacity model in the unit (two entries); xreallocarray: stubs/base.c (exact-size realloc, so every write past len * width is a bounds obligation)",
              "targ->typewchar is int or unsigned int (the three targets of targ.c)",
              "source characters are well-formed UTF-8 (ill-formed: UTF.dec / UTF.roundtrip.dec); a u8 literal's element type may be char (C11 6.4.5p6) or unsigned char (C23 char8_t, what cproc does): both accepted",
              "C11 6.4.5p5 leaves concatenating differently-prefixed wide literals implementation-defined; only u8 + wide is required to be diagnosed (6.4.5p2), equal prefixes / prefix + none are required to be accepted"]
@@ -35,6 +36,25 @@ extern int g_no_error;
 struct token tok;
 static struct target g_targ;
 const struct target *targ = &g_targ;
+
+#ifndef VERIF_REPLAY
+/* util.c:arrayadd for the `parts` array (at most two 32-byte entries): fixed storage instead of realloc(256) --
+   stubs/array_model.c makes the propositional problem intractable here (probed: > 5 min in "converting SSA") */
+static _Alignas(16) char arr_store[64];
+
+void *
+arrayadd(struct array *a, size_t n)
+{
+	void *v;
+
+	__CPROVER_assert(a->len + n <= sizeof arr_store, "arrayadd model: capacity");
+	a->val = arr_store;
+	a->cap = sizeof arr_store;
+	v = arr_store + a->len;
+	a->len += n;
+	return v;
+}
+#endif
 
 /* token queue for next() */
 static char *q_lit[2];
@@ -217,16 +237,25 @@ harness(void)
 	unsigned i;
 
 #ifdef V_NTOK
-	/* compile-time case split (one CBMC run per token count and first prefix): the propositional problem is too
+	/* compile-time case split (one CBMC run per token count): the propositional problem is too
 	   large otherwise */
-	__CPROVER_assume(in_ntok == V_NTOK && in_pfx0 == V_PFX0);
+	__CPROVER_assume(in_ntok == V_NTOK);
+#endif
+#ifdef V_PFX0
+	__CPROVER_assume(in_pfx0 == V_PFX0);
+#endif
+#ifdef V_MAXB
+	__CPROVER_assume(in_blen0 <= V_MAXB && in_blen1 <= V_MAXB);
 #endif
 	__CPROVER_assume(in_ntok >= 1 && in_ntok <= 2 && in_pfx0 <= 4 && in_pfx1 <= 4 && in_blen0 <= 7 && in_blen1 <= 7);
 #ifdef V_NTOK
 	g_ntok = V_NTOK;
-	g_pfx[0] = V_PFX0;
 #else
 	g_ntok = in_ntok;
+#endif
+#ifdef V_PFX0
+	g_pfx[0] = V_PFX0;
+#else
 	g_pfx[0] = in_pfx0;
 #endif
 	g_pfx[1] = in_pfx1;
